@@ -158,8 +158,9 @@ func (j *judge) network() {
 	// target, reader, writer: the plain reader gets the bytes WriteTo handed to a writer that is
 	// nothing but an io.Writer (no *bytes.Buffer, no other method)
 	// "short-reader": a source that never hands out more than 1021 bytes per Read (a socket, a bufio.Reader, a gzip
-	// stream): whatever reads the section data in large steps must cope with steps that come back short
-	variants := [][3]string{{"fresh", "bytes.Reader", "bytes.Buffer"}, {"fresh", "plain-reader", "plain-writer"}, {"used", "bytes.Reader", "bytes.Buffer"}, {"fresh", "short-reader", "bytes.Buffer"}}
+	// stream): whatever reads the section data in large steps must cope with steps that come back short;
+	// "eof-reader": the stream ends with the chunk and the source reports io.EOF together with its last bytes
+	variants := [][3]string{{"fresh", "bytes.Reader", "bytes.Buffer"}, {"fresh", "plain-reader", "plain-writer"}, {"used", "bytes.Reader", "bytes.Buffer"}, {"fresh", "short-reader", "bytes.Buffer"}, {"fresh", "eof-reader", "bytes.Buffer"}}
 	if cs.leanNet {
 		// the network form does not carry the status: for the 2nd.. status value the chunk is the
 		// very same input, only the plain fresh read is repeated
@@ -211,6 +212,10 @@ func (j *judge) network() {
 			} else if reader == "short-reader" {
 				sr := &shortReader{data: data, max: 1021}
 				r, rest = sr, func() int { return len(sr.data) - sr.pos }
+			} else if reader == "eof-reader" {
+				data = wire // nothing follows the chunk
+				sr := &shortReader{data: data, max: 4099, eof: true}
+				r, rest = sr, func() int { return len(sr.data) - sr.pos }
 			} else {
 				pr := &engine.PlainReader{Data: data}
 				r, rest = pr, pr.Rest
@@ -226,6 +231,9 @@ func (j *judge) network() {
 			}
 			if reader == "short-reader" {
 				tag += ",reader=short"
+			}
+			if reader == "eof-reader" {
+				tag += ",reader=eof-with-last-bytes"
 			}
 			if cs.Extra != "" && (p || rerr != nil) {
 				// e.g. a chunk without height maps is written with empty arrays the reader refuses
@@ -347,6 +355,7 @@ type shortReader struct {
 	data []byte
 	pos  int
 	max  int
+	eof  bool // the Read that hands out the last bytes reports io.EOF with them (legal; decompressors do it)
 }
 
 func (s *shortReader) Read(p []byte) (int, error) {
@@ -362,6 +371,9 @@ func (s *shortReader) Read(p []byte) (int, error) {
 	}
 	n = copy(p[:n], s.data[s.pos:])
 	s.pos += n
+	if s.eof && s.pos == len(s.data) {
+		return n, io.EOF
+	}
 	return n, nil
 }
 
